@@ -96,6 +96,12 @@ func c15model(stmts []c15stmt, ex c15exit) (src []string, out []string, oc c15ou
 			if !exited {
 				registered = append(registered, reg{text: fmt.Sprintf("D%d", s.id)})
 			}
+		case "deferArgRef":
+			// the deferred expression reads the call's own arguments (\0): it runs in the frame of that call
+			src = append(src, fmt.Sprintf(`defer (\0.len >= 0 && "D%d".p)`, s.id))
+			if !exited {
+				registered = append(registered, reg{text: fmt.Sprintf("D%d", s.id)})
+			}
 		case "deferGT":
 			// the guard is true when the defer is reached and false afterwards: the defer was registered
 			src = append(src, fmt.Sprintf("g%d := true", s.id), fmt.Sprintf(`defer "D%d".p if g%d`, s.id, s.id), fmt.Sprintf("g%d := false", s.id))
@@ -245,7 +251,7 @@ func runC15(w *fw.W) {
 		}
 	}
 	// guards whose value changes after the defer statement / whose evaluation is visible (sampled family)
-	for _, nk := range []string{"deferGT", "deferGF", "deferGM", "deferExpr"} {
+	for _, nk := range []string{"deferGT", "deferGF", "deferGM", "deferExpr", "deferArgRef"} {
 		for _, pos := range []int{0, 1, 2} {
 			for _, k := range kinds {
 				l := []c15stmt{{kind: k, id: 1}, {kind: "mark", id: 2}, {kind: "defer", id: 3}}
@@ -253,6 +259,62 @@ func runC15(w *fw.W) {
 				layouts = append(layouts, l)
 			}
 		}
+	}
+	// bodies that are exactly one defer statement (plain / guarded): called as statements (their value is undocumented)
+	if w.Take() {
+		if ip == nil {
+			ip = interp.New()
+		}
+		w.Begin("bodies made of a single defer", nil)
+		var vs violSet
+		n := 0
+		for _, body := range []struct{ src, out string }{
+			{`defer "D1".p`, "D1"}, {`defer "D1".p if true`, "D1"}, {`defer "D1".p if false`, ""}, {`defer "D1".p if 1`, "D1"}, {`defer boom(1)`, "R1"},
+		} {
+			for _, ctx := range []struct{ name, def, call string }{
+				{"func", "f := {|| %s}", "f()"}, {"method", "o := {m: m{%s}}", "o.m"}, {"one-param func", "f := {|x| %s}", "f(1)"},
+				{"list-chain callee", "f := {|x| %s}", "[1, 2]@^f"}, {"operator method", "o := {'+: m{|z| %s}}", "o + 1"},
+			} {
+				prog := c15prelude + fmt.Sprintf(ctx.def, body.src) + "\n\"B\".p\n" + ctx.call + "\n\"A\".p\n{|| \"O\".p; " + ctx.call + "; \"O2\".p; 9}()\n\"END\".p"
+				o := ip.Run(prog, interp.Options{})
+				n++
+				reps := 1
+				if ctx.name == "list-chain callee" {
+					reps = 2
+				}
+				var want []string
+				rep := func() {
+					for i := 0; i < reps; i++ {
+						if body.out != "" {
+							want = append(want, body.out)
+						}
+					}
+				}
+				raises := body.out == "R1"
+				want = append(want, "B")
+				rep()
+				if raises {
+					// the deferred expression raises: the call ends with that error (once, at the first call)
+					want = want[:2]
+				} else {
+					want = append(want, "A", "O")
+					rep()
+					want = append(want, "O2", "END")
+				}
+				got := strings.Split(strings.TrimSuffix(o.Stdout, "\n"), "\n")
+				switch {
+				case o.Panic != "" || o.ParseErr != "" || o.Cutoff != "":
+					vs.add("C15|single-defer-body|"+ctx.name+"|abnormal", prog+"\n→ "+o.Outcome()+" "+firstLine(o.ParseErr), prog)
+				case strings.Join(got, ",") != strings.Join(want, ","):
+					vs.add("C15|single-defer-body|"+ctx.name+"|marker-sequence", fmt.Sprintf("%s\nprinted %v\nmodel   %v", prog, got, want), prog)
+				case raises && (o.Err == nil || o.ErrKind != "ValueErr"):
+					vs.add("C15|single-defer-body|"+ctx.name+"|outcome", fmt.Sprintf("%s\noutcome %s, model error ValueErr", prog, o.Outcome()), prog)
+				}
+			}
+		}
+		r := fw.Result{Verdict: fw.Held, Evals: n, Counters: map[string]int{"programs": n, "single_defer_bodies": n}, DKeys: []string{"single-defer-body"}}
+		vs.finish(&r)
+		w.End(r)
 	}
 	chunk := 36
 	for ci, ctx := range c15contexts {
